@@ -290,6 +290,9 @@ Proof.
   lia.
 Qed.
 
+Lemma shl_u64_range x s : 0 <= shl u64 64 x s < 18446744073709551616.
+Proof. unfold shl. destruct (64 <=? s); [lia|apply u64_range]. Qed.
+
 (* bit operations as arithmetic *)
 Lemma zland_ones_mod x n : 0 <= n -> Z.land x (2 ^ n - 1) = x mod 2 ^ n.
 Proof.
@@ -620,6 +623,11 @@ Proof.
   replace (S (s_arr s) - Nat.min (s_arr s) (length h))%nat with 1%nat by lia. reflexivity.
 Qed.
 
+Lemma sl_put_put_adj' h s at_ d1 o d2 : wf_slice h s ->
+  0 <= at_ -> at_ + zlen d1 <= s_cap s -> o = at_ + zlen d1 ->
+  sl_put (sl_put h s at_ d1) s o d2 = sl_put h s at_ (d1 ++ d2).
+Proof. intros W H1 H2 ->. apply sl_put_put_adj; assumption. Qed.
+
 (* sub-slices *)
 Lemma reslice_ok s lo hi h : 0 <= lo <= hi -> hi <= s_cap s ->
   reslice s lo hi h = Ok (mkSl (s_arr s) (s_off s + lo) (hi - lo) (s_cap s - lo), h).
@@ -749,6 +757,13 @@ Proof.
   unfold zlen. rewrite app_length, repeat_length. cbn [length]. lia.
 Qed.
 
+Lemma wf_slice_fresh h l n : zlen l = n -> n < 9223372036854775808 ->
+  wf_slice (h ++ [l]) (mkSl (length h) 0 n n).
+Proof.
+  intros Hl Hn. unfold wf_slice. cbn [s_arr s_off s_len s_cap]. rewrite arr_get_new.
+  rewrite app_length. cbn [length]. unfold zlen in *. lia.
+Qed.
+
 (* writing a whole fresh array *)
 Lemma sl_put_new h n d : zlen d = n -> 0 <= n ->
   sl_put (h ++ [repeat 0 (Z.to_nat n)]) (mkSl (length h) 0 n n) 0 d = h ++ [d].
@@ -776,6 +791,17 @@ Ltac go_unwrap :=
          | |- context [i32 ?x] => rewrite (i32_small x) by go_side
          end.
 
+(* the same in the hypotheses (conditions recorded by the case splits) *)
+Ltac go_unwrap_hyps :=
+  repeat match goal with
+         | H : context [i64 ?x] |- _ => rewrite (i64_small x) in H by go_side
+         | H : context [u64 ?x] |- _ => rewrite (u64_small x) in H by go_side
+         | H : context [u8 ?x] |- _ => rewrite (u8_small x) in H by go_side
+         | H : context [u16 ?x] |- _ => rewrite (u16_small x) in H by go_side
+         | H : context [u32 ?x] |- _ => rewrite (u32_small x) in H by go_side
+         | H : context [i32 ?x] |- _ => rewrite (i32_small x) in H by go_side
+         end.
+
 (* one symbolic-execution step on a goal that mentions [bind prim k h] *)
 Ltac go_step :=
   match goal with
@@ -798,8 +824,8 @@ Ltac go_if :=
    case split per condition, beta/iota/zeta in between; branches whose
    conditions contradict each other are closed by lia *)
 Ltac go_run :=
-  repeat first [ go_step | go_if; cbn [s_arr s_off s_len s_cap] in *; try lia | progress cbv beta iota zeta
-               | progress cbn [s_arr s_off s_len s_cap] in * ].
+  repeat first [ go_step | go_if; cbn [s_arr s_off s_len s_cap] in *; go_unwrap_hyps; try lia | progress cbv beta iota zeta
+               | progress cbn [s_arr s_off s_len s_cap] in * | progress go_unwrap ].
 
 (* a call of a generated function whose behaviour is given by the equation E:
    [callee args h = Ok (a, h')] *)
@@ -812,3 +838,10 @@ Ltac go_rebase base :=
              rewrite (sl_put_eq hh (mkSl a o l c) base at_ (o - s_off base + at_) d)
                by (cbn [s_arr s_off]; lia)
          end.
+
+(* two adjacent writes through the same descriptor become one *)
+Ltac go_join W :=
+  match goal with
+  | |- context [sl_put (sl_put ?h0 ?s ?a ?d1) ?s ?o ?d2] =>
+      rewrite (sl_put_put_adj' h0 s a d1 o d2 W) by (unfold zlen; rewrite ?repeat_length, ?map_length; cbn [length]; lia)
+  end.
